@@ -58,7 +58,7 @@ def run_shards(specs, workdir, jobs, wall_limit):
                 json.dump(spec, f)
             log = open(os.path.join(sdir, 'log.txt'), 'w')
             p = subprocess.Popen(
-                [PY] + (['-O'] if spec.get('optimize') else []) + (['-bb'] if spec.get('strict_warnings') else [])
+                [PY] + (['-O'] if spec.get('optimize') else []) + (['-bb', '-X', 'dev'] if spec.get('strict_warnings') else [])
                 + ['-X', f'pycache_prefix={os.path.join(workdir, "pyc")}',
                  '-m', 'rv.shard', spath],
                 cwd=sdir, env=child_env(workdir), stdout=log, stderr=subprocess.STDOUT)
@@ -128,7 +128,7 @@ def _check(mod, meta, prop, tier, seed, repo, jobs, replay, workdir, t0, quiet):
         # properties must not depend on side effects of asserts in the library
         # every fourth shard (another one) runs with the library's own warnings turned into errors
         # (warnings.filterwarnings('error', module='concepts...'): what `-W error` / pytest's
-        # filterwarnings=error do to a user) and with -bb (bytes/str confusion raises)
+        # filterwarnings=error do to a user), with -bb (bytes/str confusion raises) and in Python Development Mode (-X dev)
         specs = [dict(base, shard=i, nshards=n, optimize=(i % 4 == 3), strict_warnings=(i % 4 == 1)) for i in range(n)]
     wall = meta.get('wall_limit_s', {}).get(tier, 3600 if tier == 'quick' else 6 * 3600)
     results = run_shards(specs, workdir, jobs, wall)
@@ -219,7 +219,7 @@ def _check(mod, meta, prop, tier, seed, repo, jobs, replay, workdir, t0, quiet):
         'bindings_monitored': {k: len(v) for k, v in sorted(bindings.items())},
         'shards': len(specs),
         'shards_run_with_python_-O': sum(1 for sp in specs if sp.get('optimize')),
-        'shards_run_with_library_warnings_as_errors_and_-bb': sum(1 for sp in specs if sp.get('strict_warnings')),
+        'shards_run_with_library_warnings_as_errors_-bb_-X_dev': sum(1 for sp in specs if sp.get('strict_warnings')),
         'concepts_imported_from': concepts_file,
         'known_findings_observed': {m: n for m, (k, n) in seen_known.items()},
         'inconclusive_reasons': inconclusive,
